@@ -39,6 +39,7 @@ def required(tier):
         "shape.terminal_action": 100,
         "shape.rule_defined_in_two_places": 100,
         "builtin.cases": 300,
+        "reentrant.cases": 300,
         "cover.call_actions": 20,
         "cover._call_reduce_action": 20,
     }
@@ -196,6 +197,7 @@ def run(ctx):
             one_grammar(ctx, g, alphabet, maxlen)
             if n % 5 == 0:
                 builtin_case(ctx)
+                reentrant_case(ctx)
     finally:
         mon.uninstall()
         cover.uninstall()
@@ -398,6 +400,76 @@ def builtin_case(ctx):
         r3 = norm(glr.call_actions(go.forest[0]))
         if r3 != r1:
             ctx.violation("builtin-glr-vs-lr", case, "%s vs %s" % (r3, r1))
+
+
+# --- actions that use the parser they run in -------------------------------------
+
+REENTRANT = 'E: E "+" T | T;\nT: "n" | "q" | "(" E ")";'
+NESTED = ["n+n+n", "n", "(n+n)+n+n"]
+
+
+def reentrant_case(ctx):
+    """An action may parse another text with the very parser it is running in (include /
+    eval style actions); the outer parse must go on with its own sub-results, in every
+    route of evaluating actions."""
+    rng = ctx.rng
+    nested = rng.choice(NESTED)
+    nv = nested.count("n")
+    toks = [rng.choice(["n", "q", "q", "(n+q)", "(q)"]) for _ in range(rng.randint(1, 5))]
+    inp = "+".join(toks)
+    if rng.random() < 0.3:
+        inp = inp.replace("+", " + ")
+    want = sum({"n": 1, "q": nv, "(n+q)": 1 + nv, "(q)": nv}[t] for t in toks)
+    case = {"grammar": REENTRANT, "input": inp, "reentrant": nested, "builtin": True, "want": want}
+    ctx.case((REENTRANT, inp, nested), True, sample={"grammar": REENTRANT, "input": inp, "nested_text": nested, "expected": want})
+    ctx.count("reentrant.cases")
+    # (with call_actions_during_tree_build the sub-results during the build are tree nodes, not
+    # values: that route is not part of this case)
+    for route in ("fly", "deferred", "glr"):
+        holder = {"depth": 0}
+
+        def t_act(context, nodes, holder=holder, route=route):
+            if nodes[0] == "n":
+                return 1
+            if nodes[0] == "(":
+                return nodes[1]
+            prs = holder["p"]
+            holder["depth"] += 1
+            try:
+                r = prs.parse(nested)
+                if route in ("deferred", "during"):
+                    r = prs.call_actions(r)
+                elif route == "glr":
+                    r = prs.call_actions(r[0])
+            finally:
+                holder["depth"] -= 1
+            return r
+
+        def e_act(context, nodes):
+            return nodes[0] + nodes[2] if len(nodes) == 3 else nodes[0]
+
+        acts = {"E": e_act, "T": t_act}
+        try:
+            if route == "fly":
+                prs = pgx.lr(pgx.grammar(REENTRANT), actions=acts)
+            elif route == "deferred":
+                prs = pgx.lr(pgx.grammar(REENTRANT), actions=acts, build_tree=True)
+            elif route == "during":
+                prs = pgx.lr(pgx.grammar(REENTRANT), actions=acts, build_tree=True, call_actions_during_tree_build=True)
+            else:
+                prs = pgx.glr(pgx.grammar(REENTRANT), actions=acts)
+            holder["p"] = prs
+            r = prs.parse(inp)
+            if route in ("deferred", "during"):
+                r = prs.call_actions(r)
+            elif route == "glr":
+                r = prs.call_actions(r[0])
+        except Exception as e:  # noqa: BLE001
+            r = ("raised", type(e).__name__, str(e)[:100])
+        ctx.count("reentrant.route." + route)
+        if r != want:
+            ctx.violation("reentrant-action:" + route, dict(case, route=route), "route %s gives %r, the value of the expression is %r" % (route, r, want))
+            return
 
 
 def replay(case, ctx):
